@@ -198,6 +198,7 @@ static bool normalise_action(SutAction& a, const SutView* v) {
 		a.mask[31] = 0;
 	}
 	if (a.kind != A_PLAN_WALK && a.mask[30] && !sut_typed_available()) a.mask[30] = 0;
+	if (a.kind != A_CHANGE_WITH) { if (a.kind != A_PLAN_WALK) a.mask[29] = 0; } else if (a.mask[29]) a.mask[30] = 0;
 	if (a.kind == A_CHANGE_TO || a.kind == A_CHANGE_WITH || a.kind == A_SUCCEED || a.kind == A_FAIL) a.a = static_cast<uint8_t>(a.a % N);
 	if (a.kind == A_PLAN_APPEND || a.kind == A_PLAN_APPEND_WITH) { a.a = static_cast<uint8_t>(a.a % N); a.b = static_cast<uint8_t>(a.b % N); }
 	if (a.kind == A_CHANGE_TO || a.kind == A_PLAN_APPEND) { a.has_payload = 0; memset(a.payload, 0, sizeof(a.payload)); }
@@ -608,6 +609,7 @@ RunResult execute_case(const Case& c, const ExecMode& mode) {
 			begin_ctx(fn, static_cast<int>(W.nodes.size()) - 1, x, 0, false);
 			paint_stack(W.fill_kind, W.fill_seed ^ i);
 			// b bit0: move-construct instead (the moved-from original stays a valid, active object)
+			fn.inst = slot_mem(s);        // hooks running inside a (broken) copy constructor still find their instance
 			g_in_sut = 1; fn.inst = (op.b & 1) ? sut_move(slot_mem(s), an.inst) : sut_copy(slot_mem(s), an.inst); g_in_sut = 0;
 			if (op.b & 1) g_stats.hit("moves");
 			const bool moved = (op.b & 1) != 0;
